@@ -115,6 +115,66 @@ def tlc_expected(tag, programs, workers=8, timeout=1500, cfg="MC_RefLexer.cfg", 
     return res
 
 
+def run_batches(cmd_specs, timeout=1200, max_crashes=6):
+    """cmd_specs: list of (binary, request path, result path, [requests of that batch]).  Runs
+    all batches in parallel; a batch whose process died without finishing (a stack overflow or an
+    abort in the code under test is data, not a tool error) is run again without the request it
+    died on, which gets a synthetic `P` (process died) result.  Returns per batch
+    (rc, [result dicts], done-record or None)."""
+    cmds = [[b, rq, rs] for b, rq, rs, _ in cmd_specs]
+    for _, _, rs, _ in cmd_specs:
+        for f_ in (rs, rs + ".cur"):
+            if os.path.exists(f_):
+                os.remove(f_)
+    rcs = run_parallel(cmds, timeout=timeout)
+
+    def read(rs):
+        lines, done = [], None
+        if os.path.exists(rs):
+            with open(rs) as f:
+                for line in f:
+                    try:
+                        r = json.loads(line)
+                    except ValueError:
+                        continue    # a line cut short by the crash
+                    if r.get("done"):
+                        done = r
+                    else:
+                        lines.append(r)
+        return lines, done
+
+    out = []
+    for rc, (binary, rq, rs, batch_reqs) in zip(rcs, cmd_specs):
+        lines, done = read(rs)
+        synth = []
+        pending = list(batch_reqs)
+        crashes = 0
+        while done is None and rc != 98:
+            cur = None
+            try:
+                with open(rs + ".cur") as f:
+                    cur = int(f.read().strip())
+            except (OSError, ValueError):
+                pass
+            if cur is None or crashes >= max_crashes or cur not in {r["i"] for r in pending}:
+                raise ToolError("batch runner %s died (rc=%s) without finishing" % (binary, rc))
+            crashes += 1
+            synth.append({"i": cur, "ok": False, "why": "abort",
+                          "ev": [{"k": "P", "msg": "the process running the lexer died (rc=%s): stack overflow or abort" % rc}]})
+            pending = [r for r in pending if r["i"] != cur]
+            with open(rq, "w") as f:
+                for r in pending:
+                    f.write(json.dumps(r, separators=(",", ":")))
+                    f.write("\n")
+            for f_ in (rs, rs + ".cur"):
+                if os.path.exists(f_):
+                    os.remove(f_)
+            rc = run_parallel([[binary, rq, rs]], timeout=timeout)[0]
+            lines, done = read(rs)
+        out.append((rc, lines + synth, done))
+    return out
+
+
 def replay_family(tag, programs, ctors=(0,), clone_points=False, workers=8, opt_level=0,
                   tlc_timeout=1500, builtins=None, keep_samples=3, nb=None, **kw):
     """TLC: all behaviours of RefLexer for `programs`; harness: replay each on the real lexers."""
@@ -197,41 +257,29 @@ def replay_family(tag, programs, ctors=(0,), clone_points=False, workers=8, opt_
     fr.runs = len(reqs)
 
     d = os.path.join(BUILD, tag)
-    cmds = []
-    outs = []
+    specs = []
     for bi, (name, batch) in enumerate(zip(ws.crates, batches)):
         ids = {p.id for p in batch}
         rq = os.path.join(d, "req_%d.ndjson" % bi)
         rs = os.path.join(d, "res_%d.ndjson" % bi)
+        mine = [r for r in reqs if r["p"] in ids]
         with open(rq, "w") as f:
-            for r in reqs:
-                if r["p"] in ids:
-                    f.write(json.dumps(r, separators=(",", ":")))
-                    f.write("\n")
-        if os.path.exists(rs):
-            os.remove(rs)
-        cmds.append([ws.binary(name), rq, rs])
-        outs.append(rs)
+            for r in mine:
+                f.write(json.dumps(r, separators=(",", ":")))
+                f.write("\n")
+        specs.append((ws.binary(name), rq, rs, mine))
     t1 = time.time()
-    rcs = run_parallel(cmds, timeout=1200)
+    batch_results = run_batches(specs, timeout=1200)
     fr.run_wall = time.time() - t1
 
-    for rc, rs, cmd in zip(rcs, outs, cmds):
-        done = False
-        if os.path.exists(rs):
-            with open(rs) as f:
-                for line in f:
-                    r = json.loads(line)
-                    if r.get("done"):
-                        done = True
-                        fr.ok_runs += r["ok"]
-                        continue
-                    req = reqs[r["i"]]
-                    if r.get("why") == "hang":
-                        fr.hangs.append({"req": req})
-                    fr.mismatches.append({"req": req, "actual": r["ev"]})
-        if not done and rc != 98:
-            raise ToolError("batch runner %s died (rc=%s) without finishing" % (cmd[0], rc))
+    for rc, lines, done in batch_results:
+        if done is not None:
+            fr.ok_runs += done["ok"]
+        for r in lines:
+            req = reqs[r["i"]]
+            if r.get("why") == "hang":
+                fr.hangs.append({"req": req})
+            fr.mismatches.append({"req": req, "actual": r["ev"]})
         # rc == 98: run-time hang, already recorded; the remaining requests of that batch are lost
     for rp in replays[:keep_samples]:
         fr.samples.append({"program": byid[rp["p"]].body(), "input": rp["inp"],
@@ -245,36 +293,23 @@ def run_requests(ws, batches, reqs, tag, timeout=1200):
     """Run requests (dicts with p, inp, ...) on the batch binaries; returns list of result dicts
     in request order (None where the runner produced nothing)."""
     d = os.path.join(BUILD, tag)
-    cmds, outs = [], []
     for i, r in enumerate(reqs):
         r["i"] = i
+    specs = []
     for bi, (name, batch) in enumerate(zip(ws.crates, batches)):
         ids = {p.id for p in batch}
         rq = os.path.join(d, "freq_%d.ndjson" % bi)
         rs = os.path.join(d, "fres_%d.ndjson" % bi)
+        mine = [r for r in reqs if r["p"] in ids]
         with open(rq, "w") as f:
-            for r in reqs:
-                if r["p"] in ids:
-                    f.write(json.dumps(r, separators=(",", ":")))
-                    f.write("\n")
-        if os.path.exists(rs):
-            os.remove(rs)
-        cmds.append([ws.binary(name), rq, rs])
-        outs.append(rs)
-    rcs = run_parallel(cmds, timeout=timeout)
+            for r in mine:
+                f.write(json.dumps(r, separators=(",", ":")))
+                f.write("\n")
+        specs.append((ws.binary(name), rq, rs, mine))
     results = [None] * len(reqs)
-    for rc, rs, cmd in zip(rcs, outs, cmds):
-        done = False
-        if os.path.exists(rs):
-            with open(rs) as f:
-                for line in f:
-                    r = json.loads(line)
-                    if r.get("done"):
-                        done = True
-                        continue
-                    results[r["i"]] = r
-        if not done and rc != 98:
-            raise ToolError("batch runner %s died (rc=%s) without finishing" % (cmd[0], rc))
+    for rc, lines, done in run_batches(specs, timeout=timeout):
+        for r in lines:
+            results[r["i"]] = r
     return results
 
 
